@@ -196,6 +196,13 @@ func (it *TxnIterator) advance() {
 		entry := item.Entry()
 		baseKey := kv.ParseKey(entry.Key)
 		cf, userKey, _ := kv.DecodeKeyCF(baseKey)
+		if cf != kv.CFDefault {
+			// Transactions read and write the default column family only (Get,
+			// Seek and conflict tracking all use CFDefault); entries of the lock
+			// and write column families are not part of the snapshot being scanned.
+			it.iitr.Next()
+			continue
+		}
 		if len(it.opt.LowerBound) > 0 && bytes.Compare(userKey, it.opt.LowerBound) < 0 {
 			if it.opt.Reverse {
 				return // No more valid keys, immediately return
